@@ -33,7 +33,10 @@ class Job:
                  unwind=None, strcap=32, timeout=None, tier='quick', cname=None, may_throw=None, srcrel=None,
                  extra_cflags=(), cbmc_flags=(), no_checks=False, stubs=(), self_const=None, arity=None,
                  inline_select=None, object_bits=None, lemma=False, defines=(), variant_of=None, kf=None,
-                 description='', cases=None, case=None, replay_ghost=(), replay_domain=None, variants=None, unwindset=None):
+                 description='', cases=None, case=None, replay_ghost=(), replay_domain=None, variants=None, unwindset=None, assume=None, contract_name=None, sat=None):
+        self.sat = sat   # None = minisat2 (cbmc default), or 'cadical'
+        self.assume = assume   # (C condition over harness inputs, justification): the job covers only these inputs
+        self.contract_name = contract_name
         self.unwindset = unwindset
         self.variants = variants   # list of (label, [defines]): the clause set is split over sub-jobs (same inputs)
         self.replay_domain = replay_domain
@@ -86,14 +89,18 @@ def gen_harness(job, fi, contract):
             L.append('  %s %s = %s;' % (bt, n, nondet_for(bt)))
             args.append('&' + n)
         elif p.kind in ('str_in', 'str_out'):
-            L.append('  struct vbuf %s_buf = nondet_vbuf(); vstr %s; %s.p = %s_buf.c; %s.len = nondet_int();' % (n, n, n, n, n))
-            L.append('  __CPROVER_assume(0 <= %s.len && %s.len < VERIF_STRCAP); %s_buf.c[%s.len] = 0;' % (n, n, n, n))
+            # a plain char array (not a struct member): dereferences stay array reads instead of byte extracts
+            L.append('  char %s_buf[VERIF_STRCAP]; for (int i_ = 0; i_ < VERIF_STRCAP; ++i_) %s_buf[i_] = nondet_char();' % (n, n))
+            L.append('  vstr %s; %s.p = %s_buf; %s.len = nondet_int();' % (n, n, n, n))
+            L.append('  __CPROVER_assume(0 <= %s.len && %s.len < VERIF_STRCAP); %s_buf[%s.len] = 0;' % (n, n, n, n))
             args.append('&' + n)
         else:
             raise ExtractError('%s: parameter %s of kind %s needs a hand-written /*@ harness */' % (fi.cname, p.name, p.kind))
     if contract.harness_pre is not None:
         L.append('#line %d "%s"' % (contract.harness_pre[1], contract.path))
         L.extend(contract.harness_pre[2])
+    if getattr(job, 'assume', None):
+        L.append('  __CPROVER_assume(%s); /* job restricted to these inputs: %s */' % job.assume)
     if getattr(job, 'extra_assume', None):
         L.append('  __CPROVER_assume(%s); /* known-finding split, see known_findings.txt */' % job.extra_assume)
     if job.case is not None:
@@ -167,7 +174,7 @@ def build_tu(proj, job):
     # order helpers so that callees come before callers
     inline_infos.sort(key=lambda t: AUTO_ORDER.index(t[0].qualname) if t[0].qualname in AUTO_ORDER else 99)
     # the function itself (recursion / overload siblings are not in the table unless listed)
-    contract = T.Contract(T.contract_path(job.name if job.lemma else fi.cname))
+    contract = T.Contract(T.contract_path(job.contract_name or (job.name if job.lemma else fi.cname)))
     parts = [PRELUDE % dict(strcap=job.strcap)]
     # constants: Math always, own class, extra classes
     seen = set()
@@ -227,7 +234,7 @@ def build_tu(proj, job):
 
 def _limit():
     try:
-        resource.setrlimit(resource.RLIMIT_AS, (12 << 30, 12 << 30))
+        resource.setrlimit(resource.RLIMIT_AS, (7 << 30, 7 << 30))
     except Exception:
         pass
 
@@ -260,7 +267,7 @@ AUTO_INLINE = {'Math::digits': {}, 'Math::pi': {}, 'Math::degree': {}, 'Math::Na
                'Math::norm': {}, 'Math::polyval': {}}
 AUTO_ORDER = ['Math::digits', 'Math::pi', 'Math::degree', 'Math::NaN', 'Math::infinity', 'Math::sq', 'Math::LatFix', 'Math::norm', 'Math::polyval']
 
-CHECK_FLAGS = ['--bounds-check', '--pointer-check', '--signed-overflow-check', '--conversion-check',
+CHECK_FLAGS = ['--slice-formula', '--bounds-check', '--pointer-check', '--signed-overflow-check', '--conversion-check',
                '--div-by-zero-check', '--undefined-shift-check']
 
 
@@ -340,16 +347,41 @@ def run_job(proj, job, workdir, tier='quick', seed=0, only_property=None):
         cmd += ['--unwind', str(job.unwind), '--unwinding-assertions']
         us = dict(SHIM_UNWIND)
         us['vstr_copy_in.0'] = job.strcap + 1
+        for k in range(6):
+            us['%s.%d' % (b['entry'], k)] = job.strcap + 1   # the harness' own initialisation loops
         us['vstr_find_first_not_of.0'] = job.strcap + 1
-        us.update(getattr(job, 'unwindset', None) or {})
+        for k, v in (getattr(job, 'unwindset', None) or {}).items():
+            us[k] = v
+            if k.startswith(b['cname'] + '.'):
+                # DFCC renames the function under contract
+                us[b['cname'] + '_wrapped_for_contract_checking.' + k.split('.', 1)[1]] = v
         cmd += ['--unwindset', ','.join('%s:%d' % kv for kv in sorted(us.items()))]
-    cmd += ['--object-bits', str(job.object_bits or 12)]
+    cmd += ['--object-bits', 'OBJBITS']
     cmd += job.cbmc_flags
+    if getattr(job, 'sat', None):
+        cmd += ['--sat-solver', job.sat]
+        res['backend'] = 'cbmc 6.11 SAT (%s)' % job.sat
     if only_property:
         cmd += ['--property', only_property]
     res['checker_cmd'] = ' '.join(['goto-cc --function %s <tu>' % b['entry'], '&&'] + res['instrument_cmd'].split() + ['&&'] +
                                   [c for c in cmd if c != b_gb])
-    rc, out, err, dt = run_cmd(cmd, timeout, stdout_path=json_path)
+    # DFCC's object sets are arrays of 2^object-bits entries: keep the pointer width as small as the TU allows
+    # (cbmc says 'too many addressed objects' when it is too small; then retry with one more bit)
+    dt_total = 0.0
+    for ob in range(job.object_bits or 9, 14):
+        cmd_ob = [str(ob) if c == 'OBJBITS' else c for c in cmd]
+        rc, out, err, dt = run_cmd(cmd_ob, timeout, stdout_path=json_path)
+        dt_total += dt
+        if rc == 'timeout':
+            break
+        try:
+            txt = open(json_path).read()
+        except Exception:
+            txt = ''
+        if 'too many addressed objects' not in txt:
+            break
+    dt = dt_total
+    res['checker_cmd'] = res['checker_cmd'].replace('OBJBITS', str(ob))
     res['solver_s'] = round(dt, 2)
     if rc == 'timeout':
         res['status'] = 'timeout'
@@ -388,6 +420,8 @@ def run_job(proj, job, workdir, tier='quick', seed=0, only_property=None):
             cpath = f
             c = contract if os.path.abspath(f) == os.path.abspath(contract.path) else T.Contract(f)
             ob['clause'] = '%s:%s' % (os.path.basename(f)[:-2], c.clause_at(line))
+            if re.match(r'^(post|inv|lemma|pre)\.[\w.]+$', desc):
+                ob['clause'] = '%s:%s' % (os.path.basename(f)[:-2], desc)   # a named assertion of the harness
         if desc.startswith('canary'):
             ob['canary'] = True
             if r['status'] == 'FAILURE':
